@@ -641,6 +641,18 @@ def skeletonOK : List Gen.C04.Ev → Bool
   | .forward :: _ => false
   | _ :: rest => skeletonOK rest
 
+/-- What of a skeleton the model depends on: the order of the steps and the error CONSTRUCTOR of every terminating call.
+    Not compared: the reason strings (metric labels, unexported identifiers the property does not mention), and the guard
+    clauses on values the chain itself put into the request context (`NewInternalError` with the reason
+    `statusReasonInvalidRequestContext` + `return`): behind the chain they cannot fail, they are no rows of the decision
+    table, and adding or removing one changes nothing the property speaks about. (`skeletonOK` is still demanded of the
+    WHOLE regenerated skeleton, guards included.) -/
+def shapeOf : List Gen.C04.Ev → List Gen.C04.Ev
+  | .term "NewInternalError" "statusReasonInvalidRequestContext" :: .ret :: rest => shapeOf rest
+  | .term c _ :: rest => .term c "" :: shapeOf rest
+  | e :: rest => e :: shapeOf rest
+  | [] => []
+
 /-- the dispatcher skeleton the model `dispatcher` was written against -/
 def expectedDispatcherSteps : List Gen.C04.Ev := [
   .term "NewInternalError" "statusReasonInvalidRequestContext", .ret,
